@@ -13,6 +13,25 @@ tests=$( cd $W && PYTHONPATH=$W/src /venv/bin/python -m pytest -q -p no:cachepro
 ( cd $W && PYTHONPATH=$W/src /venv/bin/python $S/demo.py >/dev/null 2>&1 ); mut_demo=$?
 git -C $W checkout -q -- .
 echo "worktree: demo clean exit=$clean_demo, with change exit=$mut_demo, tests: $tests"
+if [ -n "$SEEDEVAL_WORKTREE" ]; then
+  # a background sweep is reading /repo/src: run the check against the scratch worktree moved to /repo's HEAD with the change applied
+  git -C $W checkout -q --detach $(git -C /repo rev-parse HEAD)
+  if [ -f $S/patch.rebased.diff ]; then cp $S/patch.rebased.diff $D/; git -C $W apply $S/patch.rebased.diff || exit 2; else git -C $W apply $S/patch.diff 2>/dev/null || git -C $W apply -3 $S/patch.diff || exit 2; fi
+  t0=$(date +%s)
+  E=$(mktemp -d /var/tmp/seedev.XXXX)
+  PYMODES_SRC=$W/src VERIF_EVIDENCE_DIR=$E ./check $P --tier $TIER > /tmp/seedeval.$P.$N.log 2>&1; rc=$?
+  rm -rf $E
+  t1=$(date +%s)
+  git -C $W reset -q --hard; git -C $W checkout -q -- .
+  leg=$(grep "failing leg" /tmp/seedeval.$P.$N.log | head -1 | cut -c1-260)
+  echo "check $P ($TIER, worktree at /repo HEAD): exit=$rc in $((t1-t0))s $leg"
+  cat > $D/meta.json <<EOM
+{"property": "$P", "source": "independent sub-agent given only the property text and a scratch worktree",
+ "confirmed": {"demo_exit_unchanged_tree": $clean_demo, "demo_exit_with_change": $mut_demo, "repository_tests_with_change": "$tests"},
+ "applied_to_repo": "scratch worktree checked out at /repo HEAD (PYMODES_SRC), because a background sweep was reading /repo/src", "check_run": {"command": "./check $P --tier $TIER", "exit": $rc, "seconds": $((t1-t0))}}
+EOM
+  exit 0
+fi
 [ -z "$(git -C /repo status --short)" ] || { echo "/repo is not clean"; exit 2; }
 how=plain
 if [ -f $S/patch.rebased.diff ]; then
